@@ -22,10 +22,18 @@ Lemma source_leaf_types :
   gc_leaf_types = ["Int"; "Float"; "String"; "Type"; "File"; "Process"; "Function"]%string.
 Proof. reflexivity. Qed.
 
-(* the tracer has no exit besides the ones the model transcribes: GC_Recurse returns early on a leaf
-   type only (its second `return` follows the call of the Mark instance), GC_Mark_Item on the prefilter,
-   at the end of the probe sequence and after tracing the entry it marked.  In particular there is no
-   nesting-depth cap: `trace` has no depth bound either (the theorems hold for every graph); in the C code
-   the depth is limited by the C stack only, which the model does not represent (finding F1) *)
-Lemma source_tracer_exits : gc_recurse_returns = 2 /\ gc_mark_item_returns = 3.
+(* the tracer has no exit besides the ones the model transcribes.  GC_Recurse returns early on a leaf type only
+   (its second `return` follows the call of the Mark instance): two `return` statements.  The exits of
+   GC_Mark_Item, GC_Mark_And_Recurse and the root loop are covered by their DECISION TABLES (tools/gcmark_sym.py:
+   facts aligned / in window / in table / marked / root -> mark bit set?, number of GC_Recurse calls), which must
+   equal the model's — that is part of gc_mark_shape_ok.  In particular there is no nesting-depth cap: `trace` has
+   no depth bound either (the theorems hold for every graph); in the C code the depth is limited by the C stack
+   only, which the model does not represent (finding F1) *)
+Lemma source_tracer_exits : gc_recurse_returns = 2 /\ gc_mark_shape_ok = true.
 Proof. split; reflexivity. Qed.
+
+(* heap view objects (Zip, Slice, Range allocated with new) keep their internal objects in MANAGED storage: the
+   model (and the correspondence scripts, op V) treats them as ordinary registered nodes — the view's words lead to
+   its internal Tuple / Range, whose items / words lead to the inputs *)
+Lemma source_view_internals : view_internals_registered = true.
+Proof. reflexivity. Qed.
